@@ -135,7 +135,7 @@ FLOW_ASSUME = ["reference encoders/interpretation written from RFC 7011/7012 and
 
 
 AGING_RULE = (" cache.aging (the cache and decoder read the clock through the time seam): announce, let T pass, use - T in {0, 1, 59..61, 299..301, 599..601, 1799..1801, 3599..3601, 7200, a day -1/0/+1 s, a week, 30 days, 400 days} "
-              "x 6 orders (data / re-announcement then data / dump, T, load, data / peer lookup / T, dump, load, data / T, 96 other exporters announce, data) x 6 template versions x IPFIX, NetFlow v9: what is looked up is what was announced, however old.")
+              "x 7 orders (data / re-announcement then data / dump, T, load, data / peer lookup / T, dump, load, data / T, 96 other exporters announce, data / dump, the clock steps BACK by T, load, data) x 6 template versions x IPFIX, NetFlow v9: what is looked up is what was announced, however old.")
 
 
 def aging_space(race=False):
